@@ -491,7 +491,7 @@ def run(ctx):
     for i in range(n):
         rng = ctx.sub_rng(i)
         A = ADAPTERS[i % len(ADAPTERS)]
-        run_history(ctx, chi, A, rng, int(rng.integers(0, 13 if ctx.tier == 'thorough' else 9)))
+        ctx.guard(run_history, ctx, chi, A, rng, int(rng.integers(0, 13 if ctx.tier == 'thorough' else 9)))
     if ctx.tier == 'thorough':
         exhaustive(ctx, chi)
 
